@@ -523,3 +523,39 @@ def check_flatten_fixpoint(ctx):
             ctx.undecided('FLATTEN-FIXPOINT', meth,
                           'flatten: termination test not recognised',
                           at=meth.where(graft))
+
+
+# -------------------------------------------------------------- SWAP-SEM ---
+
+def check_swap_sem(ctx):
+    """remove_node interpreted over the three classes of positions it can
+    tell apart - the removed one (i), the last one, every other one - on ALL
+    abstract graphs (each row any subset of the classes; cases i != last and
+    i == last): the resulting rows must be those of the mathematical removal
+    (row of i gone, row of last found at i; in every row i dropped, last
+    renamed i, the others untouched).  The interpreter (sa/symgraph.py)
+    understands row exchanges, deletions, rebuilds through the renumbering
+    closure or a filter, and in-place edits of the sets."""
+    from .. import symgraph
+    program = ctx.program
+    meth = program.func(f'{DG}.remove_node')
+    program.consulted.add(meth.module.relpath)
+    wrong, unknown, count = symgraph.remove_node_table(meth.node)
+    ctx.count('decision_table_rows', count)
+    if wrong:
+        case, init, got, want = wrong[0]
+        ctx.violated('SWAP-SEM', meth,
+                     f'remove_node: {len(wrong)} of {count} abstract graphs '
+                     f'end with the wrong edges', at=meth.where(),
+                     detail={'case': case, 'rows before': init,
+                             'rows after': got, 'expected': want,
+                             'legend': 'I = position of the removed node, '
+                                       'L = last position, O = any other'})
+    elif unknown:
+        ctx.undecided('SWAP-SEM', meth,
+                      f'remove_node: construct outside the interpreted '
+                      f'fragment ({unknown[0][2][:60]})', at=meth.where())
+    else:
+        ctx.holds('SWAP-SEM', meth,
+                  f'remove_node: the {count} abstract graphs end with the '
+                  f'rows of the mathematical removal', at=meth.where())
